@@ -3,6 +3,7 @@ package main
 import (
 	"bytes"
 	"context"
+	"errors"
 	"fmt"
 	"math/rand"
 	"strings"
@@ -23,7 +24,7 @@ func init() {
 		Rule: "families of 2..4 constructed xxhash64-colliding 64-byte keys (equality of Sum64 asserted) plus plain keys; seeded sequences of Write/Read/Delete/Load/Store, Failover/FailoverOf.Get, AddLabels+InvalidateByLabels and Dump/Restore over them on all backends, " +
 			"judged by the collision-slot model (a key returns its own last value, or at most a miss if a partner was written since; never a partner's value, stale item or deletion); after every call that takes a key the passed buffer is overwritten " +
 			"(with a partner key / noise) and stored keys, label associations and the key of gated background builds are re-checked with fresh buffers; distinct_nontrivial = distinct (backend, family size, op-kind trace) sequences in which a partner write preceded a read/delete of the other key",
-		Required:    []string{"sequences", "collision.partner_written_then_read", "collision.partner_written_then_deleted", "collision.miss_observed", "buffer.overwritten_after_call", "bg.gated_builds", "collision.concurrent_rounds", "labels.invalidations", "failover.gets", "dumprestore.checked", "kind.ShardedMap", "kind.SyncMap", "kind.ShardedMapOf"},
+		Required:    []string{"sequences", "collision.partner_written_then_read", "collision.partner_written_then_deleted", "collision.miss_observed", "buffer.overwritten_after_call", "bg.gated_builds", "bg.failing_builds", "collision.concurrent_rounds", "labels.invalidations", "failover.gets", "dumprestore.checked", "kind.ShardedMap", "kind.SyncMap", "kind.ShardedMapOf"},
 		Assumptions: []string{"collision keys are constructed for xxhash64 with seed 0 (cespare/xxhash v2) and verified at run time"},
 		Timeout:     func(string) time.Duration { return 45 * time.Minute },
 	})
@@ -362,6 +363,10 @@ func c09Background(b *Batch, idx int) {
 		other = r.prepopulate(rng, 1, "fresh") // colliding keys on sharded backends cannot coexist
 	}
 	mode := 1 + rng.Intn(2)
+	failing := rng.Intn(3) == 0
+	if failing {
+		r.script = func(int, int) buildOutcome { return buildOutcome{} }
+	}
 	b.R.Eval()
 	done := make(chan struct{})
 	go func() {
@@ -404,6 +409,24 @@ func c09Background(b *Batch, idx int) {
 	}
 	if lk := r.fo.LockedKeys(); len(lk) != 0 {
 		fail("bg-lock-leaked", fmt.Sprintf("lock(s) left after the background build: %q", strings.Join(lk, ",")))
+	}
+	if failing {
+		// the failure of the background build is remembered under the original key, and under no other
+		b.R.Count("bg.failing_builds", 1)
+		var under []string
+		r.fo.ErrorsWalk(func(k []byte, _ error, _ time.Time) { under = append(under, string(k)) })
+		if len(under) != 1 || under[0] != string(keys[0]) {
+			fail("bg-failure-under-foreign-key", fmt.Sprintf("failed background build of key 0 (%q) is remembered under %q", keys[0], under))
+		}
+		if v, err := r.be.Read(bg, keys[0]); !errors.Is(err, cache.ErrExpired) && (err != nil || v != stale) {
+			fail("bg-failure-lost-stale", fmt.Sprintf("original key reads (%v,%v) after a failed background build, want the stale value %s", v, err, stale))
+		}
+		if other != "" {
+			if v, err := r.be.Read(bg, keys[1]); err != nil || v != other {
+				fail("bg-touched-other-key", fmt.Sprintf("the other key reads (%v,%v), want untouched %s", v, err, other))
+			}
+		}
+		return
 	}
 	for _, e := range log {
 		if e.Kind == "be.write" && e.Val == built && e.Key != 0 {
